@@ -83,7 +83,7 @@ def nestle_double(result=None):
     return ns
 
 
-def make_model(coef, const, limit=None, names=('a', 'b', 'c'), bounds=None):
+def make_model(coef, const, limit=None, names=('a', 'b', 'c'), bounds=None, fits=(True, False, False)):
     """ForwardModel double built with the real Fittable machinery: native spectrum_j = sum_k p_k*coef[k][j] + const[j];
     raises InvalidModelException when p_0 > limit (a symbolic validity condition)."""
     from taurex.model import ForwardModel
@@ -102,7 +102,6 @@ def make_model(coef, const, limit=None, names=('a', 'b', 'c'), bounds=None):
             self.calls = []
             self.native = None
             modes = ['linear', 'log', 'linear']
-            fits = [True, False, False]
             for k in range(len(coef)):
                 def fget(s, k=k):
                     return s.p[k]
